@@ -496,6 +496,20 @@ func ruleRecoverability(c *Ctx, r *Report) {
 					ok = false
 				}
 			}
+			// ... after the keys: the replay is reached only behind a successful key installation
+			// (replayed before it, the queued records cannot be opened and are thrown away)
+			// (the installation may be skipped when the keys are there already: what is
+			// demanded is that no installation can still follow the replay, and that a failed
+			// installation does not go on to it)
+			for _, init := range inits {
+				if instrReaches(hq[0], init) {
+					ok = false
+				}
+				wf := (&Walk{Fn: fn, Assume: failAssumption(errResult(init))}).After(init)
+				if wf.Reached[hq[0]] {
+					ok = false
+				}
+			}
 		}
 		r.Check(ok, rule2, short(fn), c.pos(fn.Pos()), "queued records are replayed (HandleQueuedPackets) after the read keys are installed and before the protected message is awaited", "after installing the read keys the queued next-epoch records are not replayed before waiting for the protected message (a Finished that arrived early is never processed)")
 	}
